@@ -4,7 +4,9 @@ Driver for C14: recomputes, from the case line alone, the ordered list of items 
 that the pages the real code returned — for every page size — concatenate to exactly that list (the property,
 independent of the model), and compares the page boundaries with the pager of `Model.Paging` that corresponds to
 the backend (offset / clamped offset / key with look-ahead / strictly-after-last).  Token abuse cases are checked
-against `memReadPage` / `memClampPage` and the type-bound rule.
+against `memReadPage` / `memClampPage` and the type-bound rule.  ListStores with an id list: the expectation does not
+depend on the order of the list (modes ids / idp / idv).  `conc` cases: the changelog written by concurrent writers must
+be in ULID order and page like any other log.
 -/
 import OpenFGAVerif.Driver.Proto
 import OpenFGAVerif.Model.Paging
@@ -143,14 +145,38 @@ def step (c impl : String) : String :=
     let n := n.toNat?.getD 0
     let dels := parseInts del
     let decoys := parseInts decoy
-    let ids := if mode.startsWith "ids:" then parseInts (mode.drop 4).toString else []
+    -- id-list modes `ids:` (ascending) / `idp:` (shuffled, fixed) / `idv:` (another permutation on every page request),
+    -- with a trailing `n` the name filter as well: the SAME expectation — the order of the id list is irrelevant
+    -- (`C14.liststores_sorted_after_filter`, `C14.liststores_paging`)
+    let (kind, ids) := match mode.splitOn ":" with
+      | [k, l] => (k, parseInts l)
+      | _ => (mode, [])
     let keep (r : Nat) : Bool :=
       !dels.contains r &&
-      (if mode == "name" then !decoys.contains r else if mode == "all" then true else ids.contains r)
+      (if kind == "name" then !decoys.contains r else if kind == "all" then true
+       else ids.contains r && (!kind.endsWith "n" || !decoys.contains r))
     checkSizes s!"ListStores/{b}" (if b == "m" then .memClamp else .sqlAsc) ((List.range n).filter keep) false (fields impl)
   | ["page", "models", b, _, n, _] =>
     let n := n.toNat?.getD 0
     checkSizes s!"ReadAuthorizationModels/{b}" (if b == "m" then .memClamp else .sqlDesc) (List.range n).reverse false (fields impl)
+  | ["conc", "changes", _, _, w, p, pre] =>
+    let total := w.toNat?.getD 0 * p.toNat?.getD 0 + pre.toNat?.getD 0
+    let get (k : String) : String :=
+      ((fields impl).filterMap (fun f => if f.startsWith (k ++ "=") then some (f.drop (k.length + 1)).toString else none)).headD "?"
+    -- the property: the changelog is in ULID order (hypothesis `StrictSorted` of `paging_changes`; for the memory backend
+    -- `C14.tie_memWrite_stamps_under_lock` + `C15.changelog_in_ulid_order_mem`), one page shows every write once, and
+    -- the small pages concatenate to it (model: `paging_changes` on a sorted log)
+    let sorted := get "sorted"
+    let single := get "single"
+    let paged := get "paged"
+    let cnt := get "n"
+    if sorted != "true" then
+      specViol s!"[changelog not in ULID order] ReadChanges/m after {w} concurrent writers: a later entry of the log has a smaller ULID (sorted={sorted}), paging: {paged} — `key > token` skips such entries (C14.paging_changes_needs_sorted_log)"
+    else if single != "ok" || cnt != toString total then
+      specViol s!"ReadChanges/m after {w} concurrent writers: one page of size n+5 shows {cnt} of {total} entries ({single})"
+    else if paged != "ok" then
+      specViol s!"ReadChanges/m after {w} concurrent writers: pages do not concatenate to the full log though it is in ULID order: {paged}"
+    else ok "paging-ReadChanges/m-concurrent-writers" (decide (w.toNat?.getD 0 ≥ 2))
   | "tok" :: kind :: api :: b :: n :: ps :: rest =>
     let n := n.toNat?.getD 0
     let ps := ps.toNat?.getD 1
